@@ -76,7 +76,17 @@ def run_case(case: dict, keep_log: bool = False) -> dict:
     if uses_io:
         gc.disable()  # collected explicitly at quiescent points, see seams.quiesce_io
     try:
-        sim = Sim(case["world"], set(case["props"]), case.get("opts"))
+        try:
+            sim = Sim(case["world"], set(case["props"]), case.get("opts"))
+        except RunAbort as a:
+            res["aborted"] = a.reason
+            res["abort_detail"] = a.detail
+            res["wall"] = time.perf_counter() - t0
+            # a violation recorded during construction travels with the exception's sim
+            res["violations"] = getattr(a, "violations", [])
+            res["known_hits"] = getattr(a, "known_hits", {})
+            res["digest"] = hashlib.sha256(repr((a.reason, res["violations"])).encode()).hexdigest()
+            return res
         if any(o["op"] in ("save", "export", "reimport", "restart") for o in case["ops"]):
             from . import persist
 
